@@ -48,6 +48,18 @@ class VariableCacheProvider:
     def __init__(self):
         """Create new cache."""
         self.__cache = {}
+        self.__values = []
+
+    def keep_alive(self, value):
+        """
+        Hold a reference to a processed value for the life of this cache.
+
+        The cache is keyed by id(value), which python can reuse as soon as a value is freed (e.g. the temporary
+        result of a watch expression), two different values would then be given the same variable id.
+
+        :param value: the value that has been given an id
+        """
+        self.__values.append(value)
 
     def check_id(self, identity_hash_id) -> Optional[str]:
         """
@@ -170,6 +182,7 @@ class VariableSetProcessor(Collector):
 
         # process this node variable
         process_result = process_variable(self, node_value)
+        self.__var_cache.keep_alive(node_value.value)
         var_id = process_result.variable_id
         # add the result to the parent - this maintains the hierarchy in the var look up
         node.parent.add_child(var_id)
